@@ -18,7 +18,7 @@
    step_r = step without window saves of UpdateTimestamp / resetUserTimestamp that are applied but
    reported as failed (see props/C02.v, C02_window_monotone_refuted). *)
 From Coq Require Import ZArith List.
-From PDV Require Import lib.Base gen.Gen_C01 model.C01_Tso proof.C01_Ctl proof.C01_Win proof.C01_Rec proof.C01_Main proof.C01_Skel.
+From PDV Require Import lib.Base gen.Gen_C01 model.C01_Tso proof.C01_Ctl proof.C01_Win proof.C01_Rec proof.C01_Main proof.C01_Skel model.C03_Env proof.C01_EnvTie.
 Import ListNotations.
 Local Open Scope Z_scope.
 
@@ -75,7 +75,29 @@ Example C01_nonvacuous :
    (0%nat, 5001, 300009, Dropped); (0%nat, 5001, 9, Granted 10); (0%nat, 5000, 3, Granted 5)].
 Proof. vm_compute. reflexivity. Qed.
 
+(* Interface to C03: the hand-over labels above are exactly the labels of the leadership environment
+   (model/C03_Env.v), and this model accepts every one of them at the same projected state (owner of the record,
+   validity flags); the only side condition is the bounded-pause hypothesis E4 at an election (nothing of the elected
+   member is in flight, its leader loop is outside a term).  props/C03.v (C03_refines_leadership_environment) shows
+   that every history of the election model is a run of that environment: the leadership hypothesis E2 under which
+   the theorems of this file are stated is therefore a theorem about the election model, not an assumption.
+   An environment label touches neither the stored window, nor a memory's timestamp, nor the granted ranges. *)
+Theorem C01_accepts_leadership_environment : forall s l e',
+  estep (proj s) l = Some e' ->
+  (forall m, l = EElect m -> busy s m = false) ->
+  exists s', step0 s (lab l) = Some s' /\ env_eq (proj s') e'.
+Proof. exact env_label_accepted. Qed.
+
+Theorem C01_leadership_labels_keep_timestamps : forall s l s',
+  step0 s (lab l) = Some s' ->
+  W s' = W s /\ recs s' = recs s /\
+  forall j, phys (mems s' j) = phys (mems s j) /\ logical (mems s' j) = logical (mems s j) /\
+            last_saved (mems s' j) = last_saved (mems s j).
+Proof. exact env_label_keeps_timestamps. Qed.
+
 Print Assumptions C01_granted_ranges_disjoint_and_ordered.
 Print Assumptions C01_realtime_order.
 Print Assumptions C01_logical_fits.
 Print Assumptions C01_compose_preserves_order.
+Print Assumptions C01_accepts_leadership_environment.
+Print Assumptions C01_leadership_labels_keep_timestamps.
